@@ -65,7 +65,7 @@ def _draw_script(draw, m, ids, bzr, prev):
     for _ in range(n):
         shape = draw(st.sampled_from(
             ["plain", "plain", "swap", "dir-rename-edit", "reparent", "kind",
-             "replace"]))
+             "replace", "new-parent", "new-parent"]))
         nonroot = sorted(f for f in m if f != ROOT)
         if shape == "plain":
             new = tm.draw_ops(draw, m, ids, n_min=1, n_max=2)
@@ -134,6 +134,42 @@ def _draw_script(draw, m, ids, bzr, prev):
             apply_op(m, op)
             ops.append(op)
             shapes.add("kind")
+        elif shape == "new-parent":
+            # a new directory takes the path another id held (that id is
+            # deleted or renamed away) and an entry is added / moved into it:
+            # a filter on the child alone needs the new parent AND the entry
+            # that vacated its path
+            if not nonroot:
+                continue
+            y = draw(st.sampled_from(nonroot))
+            par, name = m[y]["parent"], m[y]["name"]
+            free = [x for x in tm.NAMES + ["z"] if x not in
+                    tm.names_in(m, par)]
+            if free and draw(st.booleans()):
+                seq = [["rename", y, par, draw(st.sampled_from(free))]]
+            else:
+                seq = [["delete", y]]
+            tm.apply_ops(m, seq)
+            d = ids.next()
+            op = ["add", d, par, name, "directory", None, False]
+            tm.apply_op(m, op)
+            seq.append(op)
+            movable = [e for e in sorted(m) if e not in (ROOT, d) and
+                       d not in tm.descendants(m, e) and
+                       tm.depth(m, d) + 1 + max(
+                           [tm.depth(m, x) - tm.depth(m, e)
+                            for x in tm.descendants(m, e)] + [0]) <= 4]
+            if movable and draw(st.booleans()):
+                c = draw(st.sampled_from(movable))
+                op = ["rename", c, d, m[c]["name"]]
+            else:
+                c = ids.next()
+                op = ["add", c, d, "n", "file", "new\n", False]
+            tm.apply_op(m, op)
+            seq.append(op)
+            ops += seq
+            shapes.add("rename")
+            ids.focus = getattr(ids, "focus", []) + [c]
         else:   # replace: delete + add at the same path with a new id
             if not nonroot:
                 continue
@@ -229,6 +265,8 @@ def gen_case(fmt):
         # option sets
         allp = sorted(set(tm.paths(m)) | set(tm.paths(m0)) |
                       set(tm.paths(m1)) | {"nonexistent"})
+        focus = [tm.path_of(m, c) for c in getattr(ids, "focus", [])
+                 if c in m]
         opts = []
         for _ in range(4):
             o = {"include_unchanged": draw(st.integers(0, 9)) < 3,
@@ -240,6 +278,9 @@ def gen_case(fmt):
                 o["specific_files"] = draw(st.lists(
                     st.sampled_from(allp), min_size=1, max_size=3,
                     unique=True))
+            if focus and draw(st.integers(0, 9)) < 4:
+                # only the entry that went into the new directory
+                o["specific_files"] = [draw(st.sampled_from(focus))]
             opts.append(o)
         return {"fmt": fmt, "pair": pair, "base": base, "ops": ops,
                 "ops2": ops2, "unversioned": unv, "options": opts,
@@ -682,12 +723,27 @@ def run(case, env):
                     if bad is not None and bad[0] == "apply" and \
                             "path already versioned" in bad[1]:
                         # the result moves an entry onto a path whose
-                        # occupant (moved elsewhere in the target) it omits
-                        deferred.append((
-                            "C10/filtered-result-omits-collision-partner-" +
-                            impl, {"options": o, "why": bad[1],
-                                   "result": sorted(Rch, key=repr)[:8]}))
-                        bad = None
+                        # occupant (moved elsewhere in the target) it omits.
+                        # Listed for the case that the entry put there is a
+                        # selected one; for a dragged-in record (a new parent
+                        # directory) the partner must be there.
+                        cs = colliders(Rch, ms, mt, must)
+                        det = {"options": o, "why": bad[1],
+                               "colliding": cs,
+                               "result": sorted(Rch, key=repr)[:8]}
+                        check("parent" not in cs,
+                              "C10/filtered-result-omits-collision-partner-"
+                              "of-new-parent-" + impl, det)
+                        if "indirect" in cs:
+                            deferred.append((
+                                "C10/filtered-result-omits-indirect-"
+                                "collision-partner-" + impl, det))
+                            bad = None
+                        elif "selected" in cs:
+                            deferred.append((
+                                "C10/filtered-result-omits-collision-"
+                                "partner-" + impl, det))
+                            bad = None
                     if bad is not None and bad[0] == "must":
                         check(False, "C10/filtered-delta-loses-selected-"
                               "entry-" + impl, {"options": o, "why": bad[1]})
@@ -744,6 +800,46 @@ def run(case, env):
         return violation("C10/filtered-extras-differ", extras_differ,
                          label=nt)
     return ok(nt) if nt else trivial()
+
+
+def colliders(Rch, ms, mt, must):
+    """Records of a result that put an entry into a (parent, name) slot whose
+    source occupant the result leaves where it is, classified:
+      "selected"  the record is one of the selected ones,
+      "parent"    it is a dragged-in ancestor of a selected entry and its
+                  target path is the occupant's source path (the plain case
+                  the expansion of a filtered result exists for),
+      "indirect"  anything else (partner of a partner, or below a directory
+                  that is itself renamed).
+    -> {class: [records]}"""
+    slot = {(e["parent"], e["name"]): fid for fid, e in ms.items()}
+    src_paths = tm.paths(ms)
+    recs = {r[0]: r for r in Rch}
+    anc = set()
+    for r in must:
+        x = mt.get(r[0], {}).get("parent") if r[3][1] else None
+        while x is not None and x in mt:
+            anc.add(x)
+            x = mt[x]["parent"]
+    out = {}
+    for r in Rch:
+        if not r[3][1]:
+            continue
+        occ = slot.get((r[4][1], r[5][1]))
+        if occ is None or occ == r[0]:
+            continue
+        q = recs.get(occ)
+        if q is not None and (not q[3][1] or q[4][0] != q[4][1] or
+                              q[5][0] != q[5][1]):
+            continue          # the occupant leaves the slot
+        if r in must:
+            k = "selected"
+        elif r[0] in anc and src_paths.get(r[1][1]) == occ:
+            k = "parent"
+        else:
+            k = "indirect"
+        out.setdefault(k, []).append(r)
+    return out
 
 
 def delta_check(src, tgt, Rch, must):
